@@ -38,6 +38,8 @@ def cases(tier, seed):
         pg = P.PG(rng, cfg)
         for _ in range(int(n * w)):
             yield dict(pg.program(), kind="prog", stream="core")
+    for c in P.fixed_char_programs(rng, 90 if tier == "quick" else 900):
+        yield dict(c, kind="prog", stream="fixed_char")
     for c in P.outside_programs(rng, 60 if tier == "quick" else 400):
         yield dict(c, kind="prog", stream="outside")
 
